@@ -1555,6 +1555,13 @@ package desync
 //# sort.Slice calls its comparison with valid indices
 //@   lit 1: requires 0 <= i && i < len(in) && 0 <= j && j < len(in)
 //@   ensures len(r0) == len(in)
+//# a list of two or more items is handed to bst as a whole, together with the array that is returned: the
+//# sorted order itself is not the search layout (for two items the larger hash belongs at the root)
+//@   ghost@entry $done = false
+//@   ghost@after:bst $done = true
+//@   oncall bst: requires $arg0 == in && $arg2 == 0 && len($arg1) == len(in)
+//@   ghost@before:bst $items = $a1
+//@   ensures len(in) >= 2 ==> $done && r0 == $items
 
 //# size field of an element = number of bytes its encoding takes (casync readers skip by it)
 //@ spec func hdrSize(v interface{}) int = ite(is(v, FormatEntry), as(v, FormatEntry).Size, ite(is(v, FormatXAttr), as(v, FormatXAttr).Size, \
